@@ -90,6 +90,8 @@ class Interp:
         self.loop_specs = {}
         self.loop_ordinals = {}
         self.comp_ordinals = {}
+        self.not_evaluable = []
+        self.nonneg_vars = set()
         self.comp_specs = {}
         self.ghost = {}
         self.nyield = 0
@@ -231,6 +233,22 @@ class Interp:
                         None if same else z3.If(c, a.tag_term(), b.tag_term()), present)
         if isinstance(a, tuple) and isinstance(b, tuple) and len(a) == len(b):
             return tuple(self.ite(c, x, y) for x, y in zip(a, b))
+        if isinstance(a, (SList, list)) and isinstance(b, (SList, list)) and (isinstance(a, SList) or isinstance(b, SList)):
+            def as_slist(v):
+                if isinstance(v, SList):
+                    return v
+                vv = list(v)
+
+                def el(i, vv=vv):
+                    if not vv:
+                        return z3.IntVal(0)
+                    out = vv[-1]
+                    for k in range(len(vv) - 2, -1, -1):
+                        out = self.ite(to_int(i) == k, vv[k], out)
+                    return out
+                return SList(el, len(vv), 'lit')
+            sa, sb = as_slist(a), as_slist(b)
+            return SList(lambda i: self.ite(c, sa.elem(i), sb.elem(i)), zite(c, sa.n, sb.n), sa.name)
         if isinstance(a, SObj) and isinstance(b, SObj) and a.cls == b.cls and set(a.attrs) == set(b.attrs):
             return SObj(a.cls, {k: self.ite(c, a.attrs[k], b.attrs[k]) for k in a.attrs})
         if a is b:
@@ -388,8 +406,13 @@ class Interp:
         rng = []
         rest = e.args[1:]
         for v, (lo, hi) in zip(vs, zip(rest[0::2], rest[1::2])):
-            rng.append(to_int(self.ev(lo, fr)) <= v)
-            rng.append(v < to_int(self.ev(hi, fr)))
+            lov, hiv = self.ev(lo, fr), self.ev(hi, fr)
+            if isinstance(lov, int) and isinstance(hiv, int) and hiv <= lov:
+                return e.func.id == 'forall'       # empty range: the body is never evaluated
+            rng.append(to_int(lov) <= v)
+            rng.append(v < to_int(hiv))
+            if isinstance(lov, int) and lov >= 0:
+                self.nonneg_vars.add(v.get_id())
         body = self.truth(self.ev(lam.body, nf))
         body = to_bool(body)
         if e.func.id == 'forall':
@@ -449,7 +472,7 @@ class Interp:
             self.assign(g.target, it.elem(i), f)
             v = self.ev(e.elt, f)
             for k, x in enumerate(clauses):
-                goal = self.as_goal(self.pure_eval(x, f, extra={'value': v, '_G_i': i}))
+                goal = self.goal(x, f, {'value': v, '_G_i': i})
                 self.ctx.oblige(self.oname('map', line, k), goal, 'post', line)
             raise PathEnd()
         from .shapes import _StableNames
